@@ -139,3 +139,11 @@ Definition payload_of (cs : list chunk) (i : N) : list N :=
   match find (fun c => c_id c =? i) cs with Some c => c_payload c | None => [] end.
 (* concatenation of the payloads in id order *)
 Definition concat_by_id (cs : list chunk) : list N := flat_map (payload_of cs) (nseq (length cs)).
+
+(* ---------- the sender side: a payload cut into pieces, numbered, end-of-message on the last ---------- *)
+Definition mk_chunk (dev chan : N) (pseq cseq : N -> N) (i flags : N) (p : list N) : chunk :=
+  {| c_dev := dev; c_pseq := pseq i; c_cseq := cseq i; c_chan := chan; c_flags := flags; c_id := i; c_payload := p |}.
+(* pieces `front` (all of one size) followed by a last piece of any size *)
+Definition chunks_of (dev chan : N) (pseq cseq : N -> N) (front : list (list N)) (lastp : list N) : list chunk :=
+  map (fun ip => mk_chunk dev chan pseq cseq (fst ip) 0 (snd ip)) (combine (nseq (length front)) front)
+  ++ [mk_chunk dev chan pseq cseq (N.of_nat (length front)) 1 lastp].
